@@ -24,10 +24,10 @@ Definition sm4E (key : list N) : blk -> blk := let rks := sm4_round_keys key in 
 Definition sm4D (key : list N) : blk -> blk := let rks := rev (sm4_round_keys key) in sm4_crypt_rks rks.
 
 (* ---------------- Counter ---------------- *)
-(* the observable: `value` after construction and after each increment; each entry is a value or an error *)
+(* the observable: `value` after construction and after each increment *)
 Definition counter_encode (nonce : list N) (big : bool) (c : Z) : res (list N) :=
-  if ((c <? 0) || (4294967296 <=? c))%Z then Err E_OTHER      (* int.to_bytes(4, ..) -> OverflowError *)
-  else Ok (firstn 12 nonce ++ (if big then be_enc else le_enc) 4%nat (Z.to_N c)).
+  (* (self._ctr & 0xFFFFFFFF).to_bytes(4, ..): Python's & on an unbounded int, negative values included *)
+  Ok (firstn 12 nonce ++ (if big then be_enc else le_enc) 4%nat (Z.to_N (Z.land c 4294967295))).
 
 Definition counter_init (nonce : list N) (ctr_value : option Z) (big : bool) : res Z :=
   if negb (Nat.eqb (length nonce) 16) then Err E_SPSDK
